@@ -8,6 +8,7 @@ document for paths excluded by the ignore file or for submodule links.  The go-g
 produce the same documents.
 -/
 import ZoektModel.C14.Lemmas
+import ZoektModel.C14.CatfileLemmas
 namespace ZoektModel.C14
 open ZoektModel ZoektModel.C13
 
@@ -38,6 +39,15 @@ theorem collect_exact (ts : List BranchTree) :
   · rintro ⟨t, ht, hn, hc⟩
     obtain ⟨⟨e, he, h1, h2, h3⟩, h4⟩ := (contains_iff t p x).mp hc
     exact ⟨t, ht, hn, e, he, h1, h2, h3, by rw [h1]; exact h4⟩
+
+/-- **branch lists, exactly** — when every tree has distinct paths, the branch list stored for (p, x) is the list of
+    the indexed branches containing that pair, in indexing order, each once -/
+theorem collect_branch_list (ts : List BranchTree) (hnd : ∀ t ∈ ts, (t.entries.map (·.path)).Nodup)
+    (p : Path) (x : Blob) :
+    branchesOf (collectAll ts) p x = (ts.filter (·.contains p x)).map (·.name) := by
+  unfold collectAll
+  rw [branchesOf_collectAll_aux ts hnd]
+  simp [branchesOf]
 
 /-- no document without a branch -/
 theorem collect_branches_nonempty (ts : List BranchTree) : ∀ d ∈ collectAll ts, d.branches ≠ [] :=
@@ -112,6 +122,45 @@ theorem content_exact_catfile (sizeMax : Nat) (allow filter : Bool) (hf : filter
       (builderAdd sizeMax allow (catfileDoc sizeMax allow (catfileAnswer filter sizeMax (.present c)) c)) = true := by
   rw [← paths_agree_partial sizeMax allow filter hf c]
   exact content_exact_gogit sizeMax allow c
+
+/-! ## the cat-file stream -/
+
+/-- **catfile_parses** — for every stream of well-formed records, every size limit and pattern of large-file
+    exceptions (so every pattern of read-fully / skip decisions) and every schedule of chunk sizes of the buffered
+    reader: `indexCatfileBlobs` sees, for the i-th key, the i-th record (`Next` answers its header), the bytes it
+    reads are exactly that record's content (size 0 included; a skipped blob followed by further records included),
+    and no error occurs. -/
+theorem catfile_parses (sizeMax : Nat) (rs : List Rec) (allows : List Bool) (hlen : allows.length = rs.length)
+    (hwf : ∀ r ∈ rs, r.WF) (sched : List Nat) :
+    catfileDocs sizeMax ⟨stream rs, 0⟩ allows sched =
+      ((rs.zip allows).map fun p => expectedDoc sizeMax p.2 p.1, true) :=
+  catfileDocs_between sizeMax rs allows hlen hwf _ (between_sync rs) sched
+
+/-- a single `Read` inside a blob, for any buffer length and any chunk size: a non-empty prefix of the unread
+    content, never the trailing LF or the next header; the LF is consumed exactly when the content is exhausted -/
+theorem catfile_read_chunk (c X : Bytes) (j : Nat) (hj : j < c.length) (plen k : Nat) (hp : 1 ≤ plen) :
+    ∃ n, 1 ≤ n ∧ n ≤ c.length - j ∧ n ≤ plen ∧
+      read (midState c X j) plen k =
+        ((c.drop j).take n, .ok, if j + n = c.length then ⟨X, 0⟩ else midState c X (j + n)) :=
+  read_mid c X j hj plen k hp
+
+/-- `Next` from any between-records state (at a header, or with any part of a blob still unread) answers the next
+    record's header -/
+theorem catfile_next_sync (s : CF) (r : Rec) (rs : List Rec) (hr : r.WF) (hb : Between s (r :: rs)) :
+    next s = (r.answer, r.after (stream rs) 0) :=
+  next_between s r rs hr hb
+
+/-- records as git prints them (`<oid> <type> <decimal size>`) are well-formed -/
+theorem catfile_git_record_wf (pre ds c : Bytes) (hpre : 10 ∉ pre) (hne : ds ≠ []) (hd : ds.all isDigit = true)
+    (hv : digitsVal ds 0 = c.length) (hsmall : c.length ≤ 9223372036854775807) :
+    (Rec.blob (pre ++ 32 :: ds) c).WF :=
+  blob_record_wf pre ds c hpre hne hd hv hsmall
+
+/-! non-vacuity: three records (a 3-byte blob that is read, a missing object, an empty blob), chunk size 1 -/
+example :
+    catfileDocs 10 ⟨stream [.blob [97, 32, 51] [120, 121, 122], .missing ([98] ++ sufMissing), .blob [99, 32, 48] []], 0⟩
+      [false, false, false] [1, 1, 1] =
+    ([⟨[120, 121, 122], .none⟩, ⟨[], .missing⟩, ⟨[], .none⟩], true) := by decide
 
 /-! ## ignore files -/
 
